@@ -309,6 +309,7 @@ def analyse_task(task: Tuple[str, str, str, bool, Tuple[int, str], List[str]]) -
     decls = smt.Decls()
     sq = _Sql(decls=decls)
     sq.max_paths = 60000
+    sq.cpu_budget = 900.0         # CPU seconds of this worker; beyond it the task is undecided (never a verdict)
     sq.max_int_digits = 8
     chars =[decls.const(f"c{i}", smt.INT) for i in range(n)]
     names = [c.sx for c in chars]
